@@ -6,6 +6,7 @@ import (
 	"flag"
 	"fmt"
 	"os"
+	"runtime/pprof"
 	"sort"
 	"strings"
 	"time"
@@ -91,7 +92,14 @@ func main() {
 	tags := flag.String("tags", "", "build tags")
 	seed := flag.Int64("seed", 0, "")
 	selfcheck := flag.Bool("selfcheck", false, "vacuity twin: every Reach is reported as a violation")
+	cpuprof := flag.String("cpuprofile", "", "")
+	restart := flag.Int("restart", 50, "restart solver every N paths")
 	flag.Parse()
+	if *cpuprof != "" {
+		f, _ := os.Create(*cpuprof)
+		pprof.StartCPUProfile(f)
+		defer pprof.StopCPUProfile()
+	}
 
 	var specs []Spec
 	if *specFile != "" {
@@ -145,7 +153,7 @@ func main() {
 		c := exec.Config{Unwind: pick(sp.Unwind, *unwind), MaxSteps: pick(sp.MaxSteps, *steps), MaxDepth: pick(sp.MaxDepth, *depth),
 			MaxAlloc: pick64(sp.MaxAlloc, *alloc), MaxPaths: sp.MaxPaths, Solver: *solver, TimeoutMs: *timeout, Workers: *workers,
 			AllocViolation: sp.AllocViolation, UnwindViolation: sp.UnwindViolation, PanicOK: sp.PanicOK, Preempt: sp.Preempt,
-			RaceFields: sp.RaceFields, NoOps: sp.NoOps, TimerAnyTime: sp.TimerAnyTime, Verbose: *verbose, DumpDir: *dump, Seed: *seed, SelfCheck: *selfcheck, SkipInit: sp.SkipInit, GoAsCall: sp.GoAsCall}
+			RaceFields: sp.RaceFields, NoOps: sp.NoOps, TimerAnyTime: sp.TimerAnyTime, Verbose: *verbose, DumpDir: *dump, Seed: *seed, SelfCheck: *selfcheck, RestartEvery: *restart, SkipInit: sp.SkipInit, GoAsCall: sp.GoAsCall}
 		if sp.BudgetS > 0 {
 			c.Deadline = time.Now().Add(time.Duration(sp.BudgetS) * time.Second)
 		}
@@ -175,6 +183,7 @@ func main() {
 			o.SolverS, o.MaxQueryS, o.Unknowns, o.Steps = res.Stats.Seconds, res.Stats.MaxQuery, res.Unknowns, res.Steps
 			o.Samples, o.WallS, o.Schedules, o.MaxDepth, o.Incomplete = res.Samples, res.Wall, res.Schedules, res.MaxDepthSeen, res.Incomplete
 		}
+		fmt.Fprintf(os.Stderr, "  [values: %d calls %.2fs; solver %.2fs]\n", res.Stats.ValueCalls, res.Stats.ValueSeconds, res.Stats.Seconds)
 		fmt.Fprintf(os.Stderr, "%s: paths=%d ok=%d infeasible=%d violations=%d bound=%v unsupported=%v queries=%d unknown=%d wall=%.1fs\n",
 			sp.Entry, o.Paths, o.PathsOK, o.Infeasible, len(o.Violations), o.BoundHits, o.Unsupported, o.Queries, o.QUnknown+o.Unknowns, o.WallS)
 		for _, v := range o.Violations {
